@@ -133,6 +133,13 @@ def run(ctx):
                                     payload = o.a.get("v")
                                 elif o.k == "agg":
                                     payload = str(o.a).split("::")[-1]
+                                elif o.k == "bin" and o.a in ("Eq", "Ne") and len(o.kids) == 2:
+                                    # arms merged for two letters, the flag computed from the letter itself (`first == 'k'`)
+                                    cs = [k_.strip() for k_ in o.kids if k_.strip().k == "const" and k_.strip().a.get("ch") is not None]
+                                    ot = [k_.strip() for k_ in o.kids if not (k_.strip().k == "const")]
+                                    scrut = prim.switch_pred(pf, b).strip()
+                                    if len(cs) == 1 and len(ot) == 1 and ot[0].fmt() == scrut.fmt():
+                                        payload = (chr(lab) == cs[0].a["ch"]) == (o.a == "Eq")
                             vs.append((s.rv.j.get("variant"), payload))
                 got[chr(lab)] = vs
             for ch, want in LETTERS.items():
